@@ -141,7 +141,7 @@ def run(ctx):
                 'sorters; intersection parameter 0.1 (and others); non-trivial = >= 3 regions and the order changed')
     ctx.assumptions += ['shapely affinity.rotate / DBSCAN are parameters (trusted); NumPy x/0 = inf or nan']
     reqs, impl = [], []
-    n = 250 if ctx.quick() else 5000
+    n = 600 if ctx.quick() else 8000
     img = np.zeros((3000, 3000, 3), dtype=np.uint8)
     for it in range(n):
         boxes = gen_boxes(rng)
